@@ -93,6 +93,8 @@ func init() {
 const allocA = "(*internal/allocator.Allocator)."
 
 func runC02(p *chk.Prog, r *chk.Report) {
+	// a pool update re-validates every holder: SetPools always asks for the full pass (SETPOOLS-REPROCESS, shared with C07)
+	c07Release(p, r)
 	// a held address is re-validated against the current pools and Service on every sync (READOPT-EXIT, shared with C03)
 	readoptBeforeExitRule(p, r)
 	familyPairRule(p, r)
@@ -1119,6 +1121,55 @@ func c02AllocateTo(p *chk.Prog, r *chk.Report) {
 	for _, rs := range f.RangeLoops(nss) {
 		if selLoop != nil && chk.InBody(selLoop, rs) {
 			nsLoop = rs
+		}
+	}
+	if selLoop != nil && nsLoop == nil {
+		// the loops the other way round: every selector is converted into a list first, then every namespace is tried
+		// against the whole list (and taken at its first match)
+		var list types.Object
+		for _, a := range g.Find(func(n ast.Node) bool { return chk.InBody(selLoop, n) && f.IsAssignPat("L", "append(L, V)")(n) }) {
+			list = f.ObjOf(a.Node.(*ast.AssignStmt).Lhs[0])
+		}
+		var outer, inner *ast.RangeStmt
+		if list != nil {
+			for _, rs := range f.RangeLoops(nss) {
+				for _, in := range f.RangeLoops(f.IsObj(list)) {
+					if chk.InBody(rs, in) {
+						outer, inner = rs, in
+					}
+				}
+			}
+		}
+		if outer != nil {
+			ns := rangeVal(f, outer)
+			insert := f.ContainsPat("S.Namespaces.Insert(NS.Name)", chk.H("NS", ns))
+			lbl := func(e ast.Expr) bool {
+				return f.MatchWith("labels.Set(NS.Labels)", e, chk.H("NS", ns)) != nil || definedBy(g, "labels.Set(NS.Labels)", chk.H("NS", ns))(e)
+			}
+			noMatch := g.GPat(false, "L.Matches(V)", chk.H("L", rangeVal(f, inner)), chk.H("V", lbl))
+			have := chk.GOr(g.GPat(true, "S.Namespaces.Has(NS.Name)", chk.H("NS", ns)), g.GPat(true, "X.Has(NS.Name)", chk.H("NS", ns)))
+			okIn := true
+			ends := g.LoopIteration(inner, chk.GOr(noMatch, have, chk.GEvent(insert)))
+			for _, e := range ends {
+				if !e.OK {
+					okIn = false
+				}
+			}
+			app := func(n ast.Node) bool {
+				as, isAs := n.(*ast.AssignStmt)
+				return isAs && len(as.Lhs) == 1 && f.ObjOf(as.Lhs[0]) == list && f.IsAssignPat("L", "append(L, V)")(n)
+			}
+			x.Check("allocateTo:every-matching-namespace", outer.Pos(), okIn && len(ends) > 0 && !loopHasBreak(g, outer) && !loopSkipsWithout(g, outer, func(n ast.Node) bool { return n == ast.Node(inner.X) }, chk.NoGuard), "", "a namespace that a namespace selector of the pool matches can be left out of the pool's namespaces (services of that namespace are then neither pinned to the pool nor admitted by it)")
+			x.Check("allocateTo:every-namespace-selector", selLoop.Pos(), !loopSkipsWithout(g, selLoop, app, chk.NoGuard) && !loopHasBreak(g, selLoop) && g.AfterLoop(g.FactSite(inner.X), selLoop), "", "a namespace selector of the pool can be skipped")
+			okSvc := false
+			for _, rs := range f.RangeLoops(func(e ast.Expr) bool {
+				return f.MatchWith("P.Spec.AllocateTo.ServiceSelectors", e, chk.H("P", pool)) != nil
+			}) {
+				app := f.IsAssignPat("S.ServiceSelectors", "append(S.ServiceSelectors, L)")
+				okSvc = !loopSkipsWithout(g, rs, app, chk.NoGuard) && !loopHasBreak(g, rs)
+			}
+			x.Check("allocateTo:every-service-selector", f.Pos(), okSvc, "", "a service selector of the pool can be left out")
+			return
 		}
 	}
 	if selLoop == nil || nsLoop == nil {
